@@ -275,3 +275,19 @@ Proof.
   eapply dict_get_last; try eassumption.
   rewrite classify_from_nth, Hit. reflexivity.
 Qed.
+
+(* ---------------------------------------------------------------- write batch: everything or nothing *)
+Lemma coap_write_batch_known known op iids values :
+  forallb (fun b => b) known = true -> coap_write_batch known op iids values = coap_encode_all op iids values.
+Proof. intros H. unfold coap_write_batch. rewrite H. reflexivity. Qed.
+
+Lemma coap_write_batch_unknown known op iids values :
+  forallb (fun b => b) known = false -> coap_write_batch known op iids values = Crash.
+Proof. intros H. unfold coap_write_batch. rewrite H. reflexivity. Qed.
+
+Lemma coap_write_batch_sent known op iids values d :
+  coap_write_batch known op iids values = Ok d ->
+  forallb (fun b => b) known = true /\ coap_encode_all op iids values = Ok d.
+Proof.
+  unfold coap_write_batch. destruct (forallb _ known); [intros H; split; [reflexivity|exact H]|discriminate].
+Qed.
